@@ -84,8 +84,8 @@ CLAIMED = {
              'with adaptive solvers; the harness builds the explicit chain system (n = round((d/s)^2) stages of rate '
              'n/d per edge, unit gain, mean d by construction) and steps it with the same dt: every user variable must '
              'agree at EVERY stored step (1e-9; adaptive: same scipy method on the explicit system, 1e-6).',
-        note='Trusted: RefNet/RefGamma semantics, Python/numpy rounding agreement away from exact .5. Known finding '
-             'KF-C11-buffer-read-before-refresh is identified by its call site in the generated source.',
+        note='Trusted: RefNet/RefGamma semantics, Python/numpy rounding agreement away from exact .5. No open '
+             'known finding (the buffer-read-before-refresh defect was traced and repaired, commit 4fd01b0).',
         ref='§3 C11'),
     'C13': dict(
         technique=TECH + 'interleaved user workflows in one process vs each workflow alone in a pristine fork '
